@@ -52,6 +52,27 @@ def fault_pool(ctx):
         sp = gen.make_spec(rng, D=rng.choice([1, 2]), geom="box", mode=mode, cons=None, target="quad")
         sp["options"] = {"n_search": 32, "max_fun_evals": (sp["D"] + 24) if mode == "det" else 58, "noise_final_samples": 3, "use_slice_sampler": True}
         specs.append(sp)
+    # ... for a target of large declared noise (noise_size 8 / 20: the noise hyper-parameter starts high, and every retry nudges it further up)
+    # with dense schedules of 3-4 failures in a row
+    for ns in (20.0, 8.0) if ctx.quick else (20.0, 8.0, 12.0, 30.0):
+        sp = gen.make_spec(rng, D=rng.choice([1, 2]), geom="box", mode="decl", cons=None, target="quad")
+        sp["options"] = {"n_search": 32, "max_fun_evals": 58, "noise_final_samples": 3, "use_slice_sampler": True, "noise_size": ns}
+        sp["noise"] = ns
+        sp["_dense_runs"] = True
+        specs.append(sp)
+    # a constant objective (degenerate data: the GP objective is not finite at some hyper-parameter vectors), default restart and slice sampler
+    for opts in ({"use_slice_sampler": True}, {}, {"use_slice_sampler": True}) if ctx.quick else ({"use_slice_sampler": True}, {}, {"use_slice_sampler": True}, {"use_slice_sampler": True, "double_refit": True}):
+        sp = gen.make_spec(rng, D=rng.choice([1, 2]), geom="box", mode="det", cons=None, target="quad")
+        sp["yscale"], sp["yoffset"] = 0.0, rng.choice([1.0, 0.0, -3.5])
+        sp["options"] = dict({"n_search": 32, "max_fun_evals": sp["D"] + 24}, **opts)
+        specs.append(sp)
+    # the failure happens at the END of a fit (the hyper-parameters are optimised, the Cholesky factorisation of the final posterior fails),
+    # which leaves the fitted object in another state than a failure at the start
+    for mode in ("det", "decl", "he") if ctx.quick else ("det", "det", "decl", "he", "auto"):
+        sp = gen.make_spec(rng, D=rng.choice([1, 2, 3]), geom=rng.choice(["box", "tight"]), mode=mode, cons=None, target=rng.choice(["quad", "abs"]))
+        sp["options"] = {"n_search": 32, "max_fun_evals": (sp["D"] + 24) if mode == "det" else 58, "noise_final_samples": 3}
+        sp["fault_where"] = "late"
+        specs.append(sp)
     # ... combined with refits that start from two hyper-parameter vectors (double_refit), and double refits with the default restart
     for mode, opts in (("det", {"use_slice_sampler": True, "double_refit": True}), ("decl", {"use_slice_sampler": True, "double_refit": True}), ("det", {"double_refit": True})):
         sp = gen.make_spec(rng, D=rng.choice([1, 2]), geom="box", mode=mode, cons=None, target="quad")
@@ -72,7 +93,10 @@ def fault_pool(ctx):
         if t["error"] is not None:
             continue
         nfit = sum(1 for k, _ in t["events"] if k == "FIT")
-        for sched in schedules(nfit, rng, ctx.tier):
+        scheds = schedules(nfit, rng, ctx.tier)
+        if sp.get("_dense_runs"):
+            scheds = [list(range(k, k + L)) for L in (3, 4) for k in range(1, max(2, nfit), 2 if ctx.quick else 1)][: (8 if ctx.quick else 40)] + scheds[:4]
+        for sched in scheds:
             jobs.append((sp, {"gp_faults": sched}))
             meta.append((sp, sched, nfit))
     faulted = tracer.cached("c16fault", ctx.seed, ctx.tier, lambda: jobs)
@@ -90,7 +114,7 @@ def run(ctx):
             raise RuntimeError(t["tracer_error"])
         stats["faulted_runs"] += 1
         stats["modes"][sp["mode"]] = stats["modes"].get(sp["mode"], 0) + 1
-        tag = f"LinAlgError injected at GP.fit invocations {sched}; {runlevel.spec_tag(sp)}"
+        tag = f"LinAlgError injected at {'the final posterior computation of ' if sp.get('fault_where') == 'late' else ''}GP.fit invocations {sched}; {runlevel.spec_tag(sp)}"
         case = {"kind": "fit_fault_run", "spec": sp, "gp_faults": sched}
         fits = [e for k, e in t["events"] if k == "FIT"]
         inj = [e for e in fits if e["fault"]]
